@@ -198,4 +198,12 @@ CATALOGUE = [
     M('next-pos-returns-processed', ['C02'], [(CE, "        } else if !processed.contains(&pos) {\n            return Some(pos);", "        } else if processed.contains(&pos) {\n            return Some(pos);")], {'C02': 'T-next-pos'}),
     M('context-from-other-end', ['C02'], [(CE, "let mut contour = Contour::initialize_from_context(&result_events[i as usize], &mut contours, contour_id);", "let mut contour = Contour::initialize_from_context(&result_events[result_events[i as usize].get_other_pos() as usize], &mut contours, contour_id);")], {'C02': 'T-walk'}),
     B('walk-bind-event-first', ['C02', 'C04'], [(CE, "            contour.points.push(result_events[pos as usize].point);\n\n            // pos advancement (B)", "            let reached = &result_events[pos as usize];\n            contour.points.push(reached.point);\n\n            // pos advancement (B)")]),
+    # ---- parameter / local renames must not matter
+    B('rename-params-process_polygon', ['C07', 'C09', 'C13', 'C04'], [(FQ, "    contour_or_hole: &LineString<F>,\n    is_subject: bool,\n    contour_id: u32,\n    event_queue: &mut BinaryHeap<Rc<SweepEvent<F>>>,\n    bbox: &mut BoundingBox<F>,\n    is_exterior_ring: bool,\n) where", "    contour_or_hole: &LineString<F>,\n    is_subject: bool,\n    contour_id: u32,\n    event_queue: &mut BinaryHeap<Rc<SweepEvent<F>>>,\n    bounds: &mut BoundingBox<F>,\n    is_exterior_ring: bool,\n) where"), (FQ, "        bbox.min.x = bbox.min.x.min(line.start.x);\n        bbox.min.y = bbox.min.y.min(line.start.y);\n        bbox.max.x = bbox.max.x.max(line.start.x);\n        bbox.max.y = bbox.max.y.max(line.start.y);", "        bounds.min.x = bounds.min.x.min(line.start.x);\n        bounds.min.y = bounds.min.y.min(line.start.y);\n        bounds.max.x = bounds.max.x.max(line.start.x);\n        bounds.max.y = bounds.max.y.max(line.start.y);")]),
+    B('rename-params-get_next_pos', ['C02', 'C04'], [(CE, "fn get_next_pos(pos: i32, processed: &HashSet<i32>, iteration_map: &[usize]) -> Option<i32> {\n    let mut pos = pos;\n    let start_pos = pos;\n\n    loop {\n        pos = iteration_map[pos as usize] as i32;", "fn get_next_pos(from: i32, processed: &HashSet<i32>, ring: &[usize]) -> Option<i32> {\n    let mut pos = from;\n    let start_pos = pos;\n\n    loop {\n        pos = ring[pos as usize] as i32;")]),
+    B('rename-params-mark', ['C02'], [(CE, "fn mark_as_processed<F>(processed: &mut HashSet<i32>, result_events: &[Rc<SweepEvent<F>>], pos: i32, contour_id: i32)\nwhere\n    F: Float,\n{\n    processed.insert(pos);\n    result_events[pos as usize].set_output_contour_id(contour_id);", "fn mark_as_processed<F>(done: &mut HashSet<i32>, evs: &[Rc<SweepEvent<F>>], at: i32, id: i32)\nwhere\n    F: Float,\n{\n    done.insert(at);\n    evs[at as usize].set_output_contour_id(id);")]),
+    B('rename-params-initialize', ['C02', 'C03'], [(CE, "        event: &Rc<SweepEvent<F>>,\n        contours: &mut [Contour<F>],\n        contour_id: i32,\n    ) -> Contour<F> {\n        if let Some(prev_in_result) = event.get_prev_in_result() {", "        ev: &Rc<SweepEvent<F>>,\n        contours: &mut [Contour<F>],\n        contour_id: i32,\n    ) -> Contour<F> {\n        if let Some(prev_in_result) = ev.get_prev_in_result() {")]),
+    B('rename-locals-next', ['C17'], [(TR, "        let mut successor: Option<(&K, &V)> = None;\n\n        loop {\n            match (self.comparator)(key, &node.key) {\n                Ordering::Less => {\n                    successor = Some((&node.key, &node.value));", "        let mut best: Option<(&K, &V)> = None;\n\n        loop {\n            match (self.comparator)(key, &node.key) {\n                Ordering::Less => {\n                    best = Some((&node.key, &node.value));"), (TR, "                Ordering::Equal | Ordering::Greater => match node.right {\n                    Some(ref right) => node = right,\n                    None => break,\n                },\n            }\n        }\n\n        successor", "                Ordering::Equal | Ordering::Greater => match node.right {\n                    Some(ref right) => node = right,\n                    None => break,\n                },\n            }\n        }\n\n        best")]),
+    M('interiors-helper-wrong-box', ['C09', 'C13'], [(FQ, "    for polygon in clipping {\n        let exterior = operation != Operation::Difference;\n        if exterior {\n            contour_id += 1;\n        }\n        process_polygon(polygon.exterior(), false, contour_id, &mut event_queue, cbbox, exterior);\n        for interior in polygon.interiors() {\n            process_polygon(interior, false, contour_id, &mut event_queue, cbbox, false);\n        }\n    }\n\n    event_queue\n}", "    for polygon in clipping {\n        let exterior = operation != Operation::Difference;\n        if exterior {\n            contour_id += 1;\n        }\n        process_polygon(polygon.exterior(), false, contour_id, &mut event_queue, cbbox, exterior);\n        process_interiors(polygon, false, contour_id, &mut event_queue, sbbox);\n    }\n    event_queue\n}\n\nfn process_interiors<F: Float>(\n    polygon: &Polygon<F>,\n    is_subject: bool,\n    contour_id: u32,\n    event_queue: &mut BinaryHeap<Rc<SweepEvent<F>>>,\n    bbox: &mut BoundingBox<F>,\n) {\n    for interior in polygon.interiors() {\n        process_polygon(interior, is_subject, contour_id, event_queue, bbox, false);\n    }\n}")], {'C09': 'B-acc'}),
+    B('interiors-helper-correct', ['C09', 'C13', 'C07', 'C05'], [(FQ, "    for polygon in clipping {\n        let exterior = operation != Operation::Difference;\n        if exterior {\n            contour_id += 1;\n        }\n        process_polygon(polygon.exterior(), false, contour_id, &mut event_queue, cbbox, exterior);\n        for interior in polygon.interiors() {\n            process_polygon(interior, false, contour_id, &mut event_queue, cbbox, false);\n        }\n    }\n\n    event_queue\n}", "    for polygon in clipping {\n        let exterior = operation != Operation::Difference;\n        if exterior {\n            contour_id += 1;\n        }\n        process_polygon(polygon.exterior(), false, contour_id, &mut event_queue, cbbox, exterior);\n        process_interiors(polygon, false, contour_id, &mut event_queue, cbbox);\n    }\n    event_queue\n}\n\nfn process_interiors<F: Float>(\n    polygon: &Polygon<F>,\n    is_subject: bool,\n    contour_id: u32,\n    event_queue: &mut BinaryHeap<Rc<SweepEvent<F>>>,\n    bbox: &mut BoundingBox<F>,\n) {\n    for interior in polygon.interiors() {\n        process_polygon(interior, is_subject, contour_id, event_queue, bbox, false);\n    }\n}")]),
 ]
